@@ -142,6 +142,24 @@ func solveOne(o *Obligation, dir string, timeout int) {
 			o.Status = st
 		}
 	}
+	// every solver timed out or gave up: one more attempt with another search seed (search-order luck decides a few
+	// obligations that usually take seconds); a definitive answer counts, anything else leaves the verdict as it is
+	if !o.fewSolvers && (o.Status == "timeout" || o.Status == "unknown") {
+		retry := solverSpec{"z3-5.1.0(seed 7)", func(f string, t int) []string {
+			return []string{"z3-new", fmt.Sprintf("-T:%d", t), "smt.random_seed=7", "sat.random_seed=7", f}
+		}}
+		st, out, secs := runSolver(retry, file, timeout)
+		total += secs
+		if st == "unsat" || st == "sat" {
+			o.Status = st
+			o.Solver = retry.name
+			o.Time = total
+			if st == "sat" {
+				o.Model = out
+			}
+			return
+		}
+	}
 	o.Time = total
 	o.Solver = "none"
 	o.Model = last
